@@ -142,11 +142,12 @@ def _pre_coercion_table(repo, root):
 PRE_HOOKS = {"coercion_table": _pre_coercion_table}
 
 PROPS["C12"] = {
+    "standin": ["standin_value_roundtrip"],
     "verus": [],
     "kani": ["coercion"],
     "pre": ["coercion_table"],
     "level": "proof",
-    "level_text": "Kani/CBMC over the real Value accessors, data_type and ==, composed exactly as build_column_array / extract_value_from_array compose them (pairing generated from their match arms on every run): for each scalar column type, a value of the column's own kind, Null, and a value of every other scalar kind must come back == (same kind, same bits). Full bit-vector domain per kind (strings: 1 byte). This is the per-column coercion kernel of the batch-file path; WAL JSON encoding, vectors and the Arrow/Parquet libraries themselves are not covered. Two genuine defects are recorded as known findings with residual obligations.",
+    "level_text": "Kani/CBMC over the real Value accessors, data_type and ==, composed exactly as build_column_array / extract_value_from_array compose them (pairing generated from their match arms on every run): for each scalar column type, a value of the column's own kind, Null, and a value of every other scalar kind must come back == (same kind, same bits). Full bit-vector domain per kind (strings: 1 byte). This is the per-column coercion kernel of the batch-file path; WAL JSON encoding, vectors and the Arrow/Parquet libraries themselves are not covered. Two genuine defects are recorded as known findings with residual obligations. BOUNDED stand-in on the whole engine (not counted as proved): 14 relations (one per value kind incl. NaN/inf/-0.0 floats, Nulls in typed columns, an all-Null relation, f32/int8 vectors, four mixed-kind relations) inserted through StorageEngine, restarted with and without save, compared value for value and kind for kind.",
     "level_note": "trusted: Kani+CBMC; Arrow arrays return the Option<payload> they were built from; Parquet round-trips Arrow; the generator's reading of the two match statements (a changed arm it cannot read is exit 2)",
     "technique": "Kani proof harnesses injected as a child module of src/value/arrow_convert.rs in a scratch copy; accessor/constructor pairing generated from the source's match arms each run",
     "aux_failure": "violation",
